@@ -21,7 +21,7 @@ extern "C" void harness_c10_diff()
     Recipe r;
     r.root = g.gen(r, (int)verif_param("depth", 2), "t");
     ve::Env env = ve::std_env();
-    RCP<const Basic> e = build(r, r.root);
+    RCP<const Basic> e = build_or_skip(r, r.root);
     static const char *vars[] = {"x", "y", "p"};
     const char *wrt = vars[verif_choice("wrt", 3)];
     RCP<const Symbol> s = symbol(wrt);
@@ -57,7 +57,7 @@ extern "C" void harness_c10_linear()
     int t1 = bin(O_MUL, coef("c1"), f1), t2 = bin(O_MUL, coef("c2"), f2);
     r.root = bin(O_ADD, bin(O_ADD, t1, t2), leaf(L_Y));
     ve::Env env = ve::std_env();
-    RCP<const Basic> e = build(r, r.root);
+    RCP<const Basic> e = build_or_skip(r, r.root);
     RCP<const Symbol> s = symbol("x");
     Dual ref = eval(r, r.root, env, "x");
     RCP<const Basic> d = e->diff(s);
@@ -76,7 +76,7 @@ extern "C" void harness_c10_chain()
     g.binary = {O_ADD, O_MUL};
     Recipe r;
     r.root = g.gen(r, 1, "t");
-    RCP<const Basic> inner = build(r, r.root);
+    RCP<const Basic> inner = build_or_skip(r, r.root);
     RCP<const Symbol> x = symbol("x");
     RCP<const Basic> fx = function_symbol("f", inner);
     RCP<const Basic> d = fx->diff(x);
